@@ -26,6 +26,14 @@ unsafe impl Send for RingBuffer {}
 // SAFETY: Ringbuffer does not provide unsyncronized interior mutability which makes &RingBuffer Send -> RingBuffer is Sync
 unsafe impl Sync for RingBuffer {}
 
+#[cfg(ruzstd_verif)]
+impl RingBuffer {
+    /// verification hook: (buf address, cap, head, tail)
+    pub fn verif_raw(&self) -> (usize, usize, usize, usize) {
+        (self.buf.as_ptr() as usize, self.cap, self.head, self.tail)
+    }
+}
+
 impl RingBuffer {
     pub fn new() -> Self {
         RingBuffer {
@@ -79,6 +87,8 @@ impl RingBuffer {
             self.cap.next_power_of_two(),
             (self.cap + amount).next_power_of_two(),
         ) + 1;
+        #[cfg(ruzstd_verif)]
+        crate::verif_hooks::record_reserve([self.cap, amount, new_cap]);
 
         // Check that the capacity isn't bigger than isize::MAX, which is the max allowed by LLVM, or that
         // we are on a >= 64 bit system which will never allow that much memory to be allocated
@@ -611,6 +621,15 @@ unsafe fn copy_bytes_overshooting(
     type CopyType = u128;
 
     const COPY_AT_ONCE_SIZE: usize = core::mem::size_of::<CopyType>();
+    #[cfg(ruzstd_verif)]
+    crate::verif_hooks::record_copy([
+        src.0 as usize,
+        src.1,
+        dst.0 as usize,
+        dst.1,
+        copy_at_least,
+        COPY_AT_ONCE_SIZE,
+    ]);
     let min_buffer_size = usize::min(src.1, dst.1);
 
     // Can copy in just one read+write, very common case
